@@ -47,7 +47,10 @@ def _names():
       lambda s: not s[0].isdigit())
   deco = st.sampled_from(['{}', '_{}', '{}_', '_{}_', '{}'])
   mid = st.tuples(stem, stem).map(lambda t: t[0] + '_' + t[1])
-  return st.tuples(weighted((2, stem), (1, mid)), deco).map(lambda t: t[1].format(t[0])).filter(
+  plain = st.tuples(weighted((2, stem), (1, mid)), deco).map(lambda t: t[1].format(t[0]))
+  # what the Thrift compiler does with method names that are Python keywords, and other names with a meaning of their own
+  special = st.sampled_from(['from_', 'in_', 'is_', 'pass_', 'class_', 'import_', 'lambda_', 'print_', 'exec_', 'None_', 'get', 'Get', 'close_', 'open'])
+  return weighted((6, plain), (1, special)).filter(
       lambda n: n not in _RESERVED and not n.startswith('__') and not n.endswith('__')
       and not n.endswith('_async') and n.isidentifier())
 
